@@ -79,6 +79,9 @@ def utf8 (cp : Nat) : Bytes :=
   else if cp < 0x10000 then [0xE0 + cp / 4096, 0x80 + cp / 64 % 64, 0x80 + cp % 64]
   else [0xF0 + cp / 262144, 0x80 + cp / 4096 % 64, 0x80 + cp / 64 % 64, 0x80 + cp % 64]
 
+/-- `0x10000 + ((cp - 0xd800) << 10) + (cp2 - 0xdc00)` -/
+def pairCp (cp cp2 : Nat) : Nat := 0x10000 + (cp - 0xd800) * 1024 + (cp2 - 0xdc00)
+
 /-- `if (d < de) *d = x; ++d;` — `out` lists the bytes stored so far in address order: every store is
     followed by `++d`, hence the k-th store goes to `ds + k` and `out.length = min d dlen`. -/
 def put (out : Bytes) (d dlen x : Nat) : Bytes := if d < dlen then out ++ [x] else out
@@ -95,6 +98,37 @@ structure UOk where
   out : Bytes    -- bytes stored into `d[0 .. dlen)`
 deriving Repr, DecidableEq
 
+inductive UEsc where
+  | oob | bad
+  | one (cp : Nat)       -- `\uXXXX`, 6 bytes consumed
+  | pair (cp : Nat)      -- `\uD8xx\uDCxx`, 12 bytes consumed
+deriving Repr, DecidableEq
+
+/-- the `case 'u'` block; `i` is the index of the backslash, so `p = buf + i + 1` points at the `u`.
+    First code unit from `p[1..4]`; for a high surrogate `p += 6` and then `p[-1]`, `*p`, `p[1..4]`
+    are looked at in this order (C's `||`), finally `utf8proc_codepoint_valid`. -/
+def uEscape (buf : Bytes) (i : Nat) : UEsc :=
+  match hex4 buf (i + 1) with
+  | .oob => .oob
+  | .bad => .bad
+  | .val cp =>
+    if cp / 1024 = 54 then            -- (cp & 0xfc00) == 0xd800
+      match buf[i + 6]? with
+      | none => .oob
+      | some b =>
+        if b ≠ 92 then .bad else
+        match buf[i + 7]? with
+        | none => .oob
+        | some u =>
+          if u ≠ 117 then .bad else
+          match hex4 buf (i + 7) with
+          | .oob => .oob
+          | .bad => .bad
+          | .val cp2 =>
+            if cp2 / 1024 ≠ 55 then .bad           -- (cp2 & 0xfc00) != 0xdc00
+            else if cpValid (pairCp cp cp2) then .pair (pairCp cp cp2) else .bad
+    else if cpValid cp then .one cp else .bad
+
 /-- `_jbl_unescape_json_string(ctx, q, buf + i, d, dlen, &end)`; `i` is the read index `p`, `d` the
     number of output positions passed so far.  The buffer is whatever memory the caller owns:
     a read at an index `≥ buf.length` is `.oob`. -/
@@ -110,29 +144,11 @@ def unesc (buf : Bytes) (q dlen : Nat) (i d : Nat) (out : Bytes) : R UOk :=
       | some e =>
         if escMap e < 256 then unesc buf q dlen (i + 2) (d + 1) (put out d dlen (escMap e))
         else if escMap e = 257 then
-          match hex4 buf (i + 1) with
+          match uEscape buf i with
           | .oob => .oob
           | .bad => .err eCodepoint
-          | .val cp =>
-            if cp / 1024 = 54 then      -- (cp & 0xfc00) == 0xd800 : p += 6, then p[-1], *p, p[1..4]
-              match buf[i + 6]? with
-              | none => .oob
-              | some b =>
-                if b ≠ 92 then .err eCodepoint else
-                match buf[i + 7]? with
-                | none => .oob
-                | some u =>
-                  if u ≠ 117 then .err eCodepoint else
-                  match hex4 buf (i + 7) with
-                  | .oob => .oob
-                  | .bad => .err eCodepoint
-                  | .val cp2 =>
-                    if cp2 / 1024 ≠ 55 then .err eCodepoint else   -- (cp2 & 0xfc00) != 0xdc00
-                    let cpf := 0x10000 + (cp - 0xd800) * 1024 + (cp2 - 0xdc00)
-                    if !cpValid cpf then .err eCodepoint
-                    else unesc buf q dlen (i + 12) (d + (utf8 cpf).length) (putAll out d dlen (utf8 cpf))
-            else if !cpValid cp then .err eCodepoint
-            else unesc buf q dlen (i + 6) (d + (utf8 cp).length) (putAll out d dlen (utf8 cp))
+          | .one cp => unesc buf q dlen (i + 6) (d + (utf8 cp).length) (putAll out d dlen (utf8 cp))
+          | .pair cp => unesc buf q dlen (i + 12) (d + (utf8 cp).length) (putAll out d dlen (utf8 cp))
         else unesc buf q dlen (i + 1) (d + 1) (put out d dlen 92)   -- default: keep the backslash, re-read e
     else unesc buf q dlen (i + 1) (d + 1) (put out d dlen c)
 termination_by buf.length - i
